@@ -617,6 +617,36 @@ def complex_cases(rng, tier):
     add("linalg.norm", "complex nuc", (lambda m, a: m.linalg.norm(a, "nuc")), [gz], [0], False)
     add("fft.fft", "complex input", (lambda m, a: m.fft.fft(a)), [gz[0]], [0], True if False else False)
     add("fft.ifft", "complex input", (lambda m, a: m.fft.ifft(a)), [gz[0]], [0], False)
+    # the FFT family: real -> complex (explicit lengths, norms, axes: raise or be right) and complex -> complex
+    for name, sh, kw in (("rfft", (4,), {}), ("rfft", (4,), {"n": 5}), ("rfft", (6,), {"n": 3}), ("rfft", (4,), {"n": 6}), ("rfft", (4,), {"n": 2}),
+                         ("rfft", (5,), {"n": 4}), ("rfft", (4,), {"norm": "ortho"}), ("rfft", (4,), {"norm": "forward"}),
+                         ("rfft", (3, 4), {"axis": 0}), ("rfft", (4, 3), {"axis": 0}), ("rfft2", (4, 4), {}), ("rfft2", (4, 4), {"s": (3, 3)}),
+                         ("rfft2", (4, 4), {"s": (2, 6)}), ("rfftn", (4, 3), {"axes": (1, 0)}), ("rfftn", (2, 4), {"s": (2, 3)}),
+                         ("fft", (4,), {}), ("fft", (4,), {"n": 6}), ("fft", (4,), {"n": 3}), ("fft", (2, 3), {"axis": 0}), ("ifft", (4,), {}),
+                         ("fft2", (2, 3), {}), ("fftn", (2, 3), {"s": (3, 2)}), ("ifftn", (2, 2), {}), ("fftshift", (5,), {})):
+        add("fft." + name, "real input shape=%s %s" % (sh, kw), (lambda m, a, name=name, kw=kw: getattr(m.fft, name)(a, **kw)), [distinct(rng, sh)], [0], False)
+    for name, kw in (("fft", {}), ("fft", {"n": 4}), ("fft", {"n": 2}), ("ifft", {"norm": "ortho"}), ("fftshift", {}), ("ifftshift", {}),
+                     ("irfft", {}), ("irfft", {"n": 4}), ("irfft", {"n": 5}), ("irfft", {"n": 6}), ("hfft_missing", {})):
+        if hasattr(anp.fft, name):
+            add("fft." + name, "complex input %s" % (kw,), (lambda m, a, name=name, kw=kw: getattr(m.fft, name)(a, **kw)), [gz[0]], [0], False)
+    add("fft.fft2", "complex input", (lambda m, a: m.fft.fft2(a)), [gz], [0], False)
+    add("fft.irfft2", "complex input", (lambda m, a: m.fft.irfft2(a)), [gz], [0], False)
+    # linalg on complex matrices
+    cm = gz[:, :2] + onp.array([[3.0, 0.5j], [-0.5j, 2.5]])
+    herm = (cm + onp.conj(cm.T)) / 2 + 3 * onp.eye(2)
+    cb = gw[:, :2]
+    add("linalg.inv", "complex 2x2", (lambda m, a: m.linalg.inv(a)), [cm], [0], False)
+    add("linalg.det", "complex 2x2", (lambda m, a: m.linalg.det(a)), [cm], [0], False)
+    add("linalg.slogdet", "complex logabsdet", (lambda m, a: m.linalg.slogdet(a)[1]), [cm], [0], False)
+    add("linalg.slogdet", "complex batch logabsdet", (lambda m, a: m.linalg.slogdet(a)[1]), [onp.stack([cm, cm * (1 + 0.5j) + onp.eye(2)])], [0], False)
+    add("linalg.solve", "complex", (lambda m, a, b: m.linalg.solve(a, b)), [cm, cb], [0, 1], False)
+    add("linalg.solve", "complex matrix, real rhs", (lambda m, a, b: m.linalg.solve(a, b)), [cm, distinct(rng, (2, 2))], [0, 1], False)
+    add("linalg.eigh", "Hermitian eigenvalues", (lambda m, a: m.linalg.eigh((a + m.conj(m.swapaxes(a, -1, -2))) / 2)[0]), [herm], [0], False)
+    add("linalg.svd", "complex singular values", (lambda m, a: m.linalg.svd(a, compute_uv=False)), [gz], [0], False)
+    add("linalg.cholesky", "Hermitian", (lambda m, a: m.linalg.cholesky((a + m.conj(m.swapaxes(a, -1, -2))) / 2)), [herm], [0], False)
+    add("linalg.pinv", "complex", (lambda m, a: m.linalg.pinv(a)), [gz], [0], False)
+    add("trace", "complex", (lambda m, a: m.trace(a)), [cm], [0], False)
+    add("matmul", "complex chain", (lambda m, a, b: m.matmul(m.matmul(a, b), m.conj(a))), [cm, cb], [0, 1], False)
     # real -> complex -> real composite gets a real gradient equal to the purely real one
     add("composite", "real->fft->abs**2->sum", (lambda m, a: m.sum(m.abs(m.fft.fft(a)) ** 2)), [distinct(rng, (4,))], [0], False)
     add("composite", "real->complex-mul->real", (lambda m, a: m.real((a + 2j) * (1 - 1j) * a)), [distinct(rng, (3,))], [0], False)
